@@ -571,12 +571,13 @@ def H_zonecache(zone_id):
     return make, check, ("_caching_zone_interval_map.py", "_cached_date_time_zone.py")
 
 
-def H_provider():
+def H_provider(nthreads=2):
     src = TzdbDateTimeZoneSource.default
 
     def make():
         cache = DateTimeZoneCache(src)
-        return [lambda: cache["Europe/Paris"], lambda: cache.get_zone_or_none("Europe/Paris")], {"cache": cache}
+        bodies = [lambda: cache["Europe/Paris"], lambda: cache.get_zone_or_none("Europe/Paris"), lambda: cache["Europe/Paris"]]
+        return bodies[:nthreads], {"cache": cache}
 
     def check(s, c):
         if s.status != "OK":
@@ -584,9 +585,9 @@ def H_provider():
         e = _outcome_errors(s)
         if e is not None:
             return ("error", type(e).__name__), "thread raised %r" % (e,)
-        a, b = s.results
+        a, b = s.results[0], s.results[1]
         later = c["cache"]["Europe/Paris"]
-        same = (a is b, later is a, later is b)
+        same = (all(r is a for r in s.results), later is a, later is b)
         return same, (None if all(same) else "two threads fetching one id from a fresh provider got different zone objects (a is b: %s, later lookup is a: %s, is b: %s)" % same)
     return make, check, ("_date_time_zone_cache.py",)
 
@@ -783,6 +784,8 @@ def _harness_table(tier):
     for zid in ("Europe/London", "Europe/Vienna"):
         hs.append(("H3-zonecache:%s" % zid, lambda zid=zid: H_zonecache(zid)))
     hs.append(("H4-provider", H_provider))
+    if tier != "quick":
+        hs.append(("H4-provider-3threads", lambda: H_provider(3)))
     hs.append(("H5-calendar:coptic", lambda: H_calendar("coptic", "COPTIC")))
     hs.append(("H5-calendar:julian", lambda: H_calendar("julian", "JULIAN")))
     for w in ("utc", "for_offset", "tzdb"):
